@@ -74,7 +74,8 @@ def apply_real(m, op):
         if o == "popd":
             return m.pop(op[1], MISSING)
         if o == "setlist":
-            return m.setlist(op[1], list(op[2]))
+            # the values come as a list, a tuple or a one-shot iterator (the signature says Sequence; callers pass what they have)
+            return m.setlist(op[1], list(op[2]) if len(op[2]) != 1 else (tuple(op[2]) if op[1] != "b" else list(op[2])))
         if o == "popitem":
             return m.popitem()
         if o == "clear":
@@ -339,7 +340,16 @@ def run(ctx):
     contracts.arm_multimap()
     keys4, vals4 = "abcd", ("", 0, None, "x")  # values that are falsy must behave like any other value
     ops4 = build_ops(keys4, vals4)
+    keys5, vals5 = "abc", ("a", "b", 1)  # values that are equal to keys: a pair is (key, value), never "something containing x"
+    ops5 = build_ops(keys5, vals5)
     for i in range(ctx.scale(3000, 200_000)):
+        if i % 3 == 2:
+            keys4, vals4, ops4 = keys5, vals5, ops5
+        elif i % 3 == 0:
+            keys4, vals4 = "abcd", ("", 0, None, "x")
+            ops4 = build_ops(keys4, vals4) if i == 0 else ops4a
+        if i == 0:
+            ops4a = ops4
         init = [(rng.choice(keys4), rng.choice(vals4)) for _ in range(rng.randrange(0, 6))]
         seq = tuple(rng.choice(ops4) for _ in range(rng.randrange(1, 31)))
         before = contracts.COUNTS["multimap.inv"]
